@@ -407,6 +407,24 @@ class BuiltinMixin:
     tol = z3.If(rel * mx >= ab, rel * mx, ab)
     return VBool(z3.And(z3.Not(x.nan), z3.Not(y.nan), absf(x.t - y.t) <= tol))
 
+  def lib_itertools_starmap(self, it, a, k):
+    """itertools.starmap(f, pairs) over a ghost iterator of pairs: element j is f(fst(pair_j), snd(pair_j)) (lazy, A6)."""
+    from .interp import pair_fst, pair_snd
+    f, src = a
+    if not isinstance(src, VIter) or src.wrap_fn is not None:
+      raise Unsupported('starmap over a non-ghost iterator')
+    ft = self.fn_symbol(f)
+    ap = opaque_fn(2)
+    j = z3.Int(self.path.fresh_name('j'))
+    elem = z3.Select(src.src.arr, j)
+    bad = fn_raises(ft, elem)
+    if src.fails is not None:
+      bad = z3.Or(z3.Select(src.fails, j), bad)
+    m = VIter(VSeq(z3.Lambda([j], ap(ft, pair_fst(elem), pair_snd(elem))), src.src.n, 'obj'), src.pos, z3.Lambda([j], bad), True, src.ret, tag='starmap')
+    m.dead = src.dead
+    m.err = 'ValueError'
+    return m
+
   def lib_itertools_chain(self, it, a, k):
     """itertools.chain(*concrete iterables): their concatenation."""
     out = []
